@@ -51,7 +51,7 @@ MANIFEST = dict(
          'are not writable from Python and outside the property. The Cython twin cannot be built here and is not verified.',
 )
 
-IMPORTS = ['Coq.NArith.NArith', 'Coq.ZArith.ZArith', 'Coq.Lists.List', 'SV.Fmt.VtfPixelExpr', 'SV.Fmt.VtfLayout',
+IMPORTS = ['Coq.NArith.NArith', 'Coq.ZArith.ZArith', 'Coq.Lists.List', 'SV.Fmt.VtfPixelExpr', 'SV.Fmt.VtfLayout', 'SV.Fmt.VtfSides',
            'SV.Gen.PixelCodecs_gen', 'SV.Gen.VtfLayout_gen']
 IMPORTS_CONT = ['Coq.NArith.NArith', 'Coq.ZArith.ZArith', 'Coq.Lists.List', 'Coq.Strings.String', 'Coq.Bool.Bool', 'SV.Bin.Struct',
                 'SV.Fmt.VtfContainer', 'SV.Gen.VtfContainer_gen']
@@ -83,9 +83,10 @@ def _patch_known() -> None:
         k = orig()
         p = VERIF / 'known_findings.d' / 'C15.json'
         if p.exists():
+            # this property's own file is authoritative for C15 (an entry removed there because the defect was repaired
+            # must not linger in the assembled file until the next integration)
             d = json.loads(p.read_text())
-            have = {(e['property'], e['key']) for e in k.get('known', [])}
-            k.setdefault('known', []).extend(e for e in d.get('known', []) if (e['property'], e['key']) not in have)
+            k['known'] = [e for e in k.get('known', []) if e.get('property') != 'C15'] + [e for e in d.get('known', []) if e.get('property') == 'C15']
         return k
     load_known._c15 = True
     common.load_known = load_known
@@ -402,7 +403,7 @@ def gen_config(rng: random.Random, w: int, h: int, fmts: list[str]) -> dict:
                     frs.append([f32(rng.uniform(0, 2)), tcs])
                 seqs[str(sn)] = {'frames': frs, 'clamp': rng.random() < 0.5, 'duration': f32(rng.uniform(0, 10))}
             cfg['sheet'], cfg['sheet_ver'] = seqs, sv
-    if not cube and rng.random() < 0.15:
+    if rng.random() < (0.4 if cube else 0.15):     # cubemaps: the side list changes at 7.5 (sphere map), so overrides matter most there
         cfg['save_version'] = rng.choice([v for v in (2, 3, 4, 5) if (v >= 3 or (not cfg['resources'] and not cfg['sheet']))])
     return cfg
 
@@ -468,6 +469,20 @@ def run_config(cfg: dict) -> list[tuple[str, str]]:
         return probs + [(f'save-raises-{type(e).__name__}', f'save raised {type(e).__name__}: {e}')]
     b1 = buf.getvalue()
     orig = {k: bytes(f._data) for k, f in vtf._frames.items() if f._data is not None}
+    # a cubemap written as another version has the sides of THAT version: the sphere map is dropped when writing 7.5, and a
+    # 7.5 cubemap written as 7.2-7.4 gets a blank (opaque black) sphere map; the object itself is unchanged
+    if cfg['cube'] and sv is not None and (sv[1] >= 5) != (cfg['version'] >= 5):
+        from srctools.vtf import CubeSide
+        if keys0 != set(vtf._frames):
+            probs.append(('save-changes-frame-table', 'save(version=) changed the frame table of the object'))
+        if sv[1] >= 5:
+            keys0 = {k for k in keys0 if k[1] is not CubeSide.SPHERE}
+        else:
+            for k in [k for k in keys0 if k[1] is CubeSide.FRONT]:
+                ks = (k[0], CubeSide.SPHERE, k[2])
+                keys0.add(ks)
+                dims0[ks] = dims0[k]
+                orig[ks] = bytes((0, 0, 0, 255)) * (dims0[k][0] * dims0[k][1])
     orig_low = bytes(vtf._low_res._data) if vtf._low_res._data is not None else None
     # ---- generated mipmaps are floor-averages of their parent
     if cfg['mode'] == 'generated':
@@ -670,23 +685,41 @@ def search_files(ck: Ck) -> None:
 
 
 
-def cube_override(v0: int, v1: int) -> str | None:
-    """A cubemap of version 7.v0 saved with save(version=(7, v1)); -> description of what goes wrong, or None."""
-    from srctools.vtf import VTF, ImageFormats, VTFFlags
+def cube_override(v0: int, v1: int, frames: int = 2, lazy: bool = False) -> str | None:
+    """A cubemap of version 7.v0 saved with save(version=(7, v1)); -> description of what goes wrong, or None.
+    Expected: the file has the sides of version 7.v1 (six, plus the sphere map below 7.5); every side the object has reads
+    back exactly, a sphere map the object does not have reads back blank (opaque black), the object keeps its frame table.
+    lazy: the object is itself a lazily read file (frames still have their file source)."""
+    from srctools.vtf import VTF, ImageFormats, VTFFlags, CubeSide
     rng = random.Random(v0 * 8 + v1)
-    v = VTF(4, 4, version=(7, v0), fmt=ImageFormats.RGBA8888, thumb_fmt=ImageFormats.NONE, flags=VTFFlags.ENVMAP)
+    v = VTF(4, 4, version=(7, v0), frames=frames, fmt=ImageFormats.RGBA8888, thumb_fmt=ImageFormats.NONE, flags=VTFFlags.ENVMAP)
     for f in v._frames.values():
         f.copy_from(rng.randbytes(4 * f.width * f.height))
+    pixels = {k: bytes(f._data) for k, f in v._frames.items()}
+    what = f'cubemap 7.{v0}' + (' (read lazily)' if lazy else '') + f', {frames} frames, saved as 7.{v1}'
     buf = io.BytesIO()
     try:
+        if lazy:
+            b0 = io.BytesIO()
+            v.save(b0)
+            v = VTF.read(io.BytesIO(b0.getvalue()))
+        keys_before = set(v._frames)
         v.save(buf, version=(7, v1))
         v2 = VTF.read(io.BytesIO(buf.getvalue()))
         v2.load()
     except Exception as e:
-        return f'cubemap 7.{v0} saved as 7.{v1}: {type(e).__name__}: {e}'
-    for k, f in v2._frames.items():
-        if k[2] < v.mipmap_count and (k not in v._frames or bytes(f._data) != bytes(v._frames[k]._data)):
-            return f'cubemap 7.{v0} saved as 7.{v1}: side {k} reads back other pixels than were saved ({len(v._frames)} frames before, {len(v2._frames)} after)'
+        return f'{what}: {type(e).__name__}: {e}'
+    if set(v._frames) != keys_before or v.version != (7, v0):
+        return f'{what}: save(version=) changed the object (frame table or version)'
+    sides = [s for s in CubeSide if s is not CubeSide.SPHERE or v1 < 5]
+    want = {(fr, s, m) for fr in range(frames) for s in sides for m in range(v.mipmap_count)}
+    if set(v2._frames) != want or v2.version != (7, v1):
+        return f'{what}: the file has version {v2.version} and {len(v2._frames)} frames, expected {len(want)} ({len(sides)} sides)'
+    for k in sorted(want, key=str):
+        f = v2._frames[k]
+        exp = pixels.get(k, bytes((0, 0, 0, 255)) * (f.width * f.height))
+        if bytes(f._data) != exp:
+            return f'{what}: side {k} reads back other pixels than were saved ({len(v._frames)} frames before, {len(v2._frames)} after)'
     return None
 
 
@@ -695,13 +728,15 @@ def search_cube_override(ck: Ck) -> None:
         for v1 in (2, 3, 4, 5):
             if v0 == v1:
                 continue
-            ck.count('cubemap_version_overrides')
-            ck.seen(('cube_override', v0, v1))
-            what = cube_override(v0, v1)
-            if what is not None:
-                across = (v0 >= 5) != (v1 >= 5)
-                ck.violation('cubemap-save-version-override-across-sphere-map-boundary' if across else 'cubemap-save-version-override-differs',
-                             what, {'cube_override': [v0, v1]})
+            for frames, lazy in ((1, False), (2, False), (3, True)):
+                ck.count('cubemap_version_overrides')
+                ck.seen(('cube_override', v0, v1, frames, lazy))
+                what = cube_override(v0, v1, frames, lazy)
+                if what is not None:
+                    across = (v0 >= 5) != (v1 >= 5)
+                    ck.violation('cubemap-save-version-override-across-sphere-map-boundary' if across else 'cubemap-save-version-override-differs',
+                                 what, {'cube_override': [v0, v1, frames, lazy]})
+                    break
 
 
 # ================================================================================================ bounds / mipmap filters / sheets
@@ -1415,6 +1450,12 @@ def run(ck: Ck) -> None:
             'mipmap_count_is_number_of_levels_or_known_last_index': 'orb (mip_count_ok gen_mipcfg) (N.eqb (count_delta gen_mipcfg) 0)',
             'save_and_read_walk_frames_in_the_same_order': 'order_eqb save_order read_order',
             'frame_key_is_frame_depth_mip': 'frame_key_is_frame_depth_mip',
+            'save_and_read_loop_nests_have_the_same_order_mip_frame_side': '(lorder_eqb gen_save_order gen_read_order && lorder_eqb gen_save_order good_order)%bool',
+            'save_takes_the_side_list_of_the_version_it_writes': 'match sd_save gen_sidescfg with MWritten => true | MObject => false end',
+            'read_takes_the_side_list_of_the_version_in_the_file': 'match sd_read gen_sidescfg with MWritten => true | MObject => false end',
+            'save_writes_a_blank_frame_for_a_side_the_object_lacks': 'sd_missing_blank gen_sidescfg',
+            'side_list_configuration_ok': 'sides_ok gen_sidescfg',
+            'cubemaps_have_six_sides_from_7_5_and_the_sphere_map_before': 'sphere_rule_ok gen_sidescfg',
             'read_level_size_is_max_shr_1': 'read_dims_are_max_shr_1',
             'compute_mipmaps_uses_previous_level': 'compute_mipmaps_from_previous_level',
             'getitem_rejects_negative_x': 'rejects_x_low getitem_reject', 'getitem_rejects_x_ge_width': 'rejects_x_high getitem_reject',
@@ -1471,6 +1512,14 @@ def run(ck: Ck) -> None:
             ck.explain('instance:save_')
             ck.explain('correspondence:frame-histories')
             ck.explain('translate:VtfFrameSM_gen')
+        if k.startswith(('cubemap-save-version-override', 'frame-table', 'read-raises', 'save-raises', 'pixels-displaced', 'pixel-mismatch-')):
+            ck.explain('instance:save_takes_the_side_list')
+            ck.explain('instance:read_takes_the_side_list')
+            ck.explain('instance:save_writes_a_blank_frame')
+            ck.explain('instance:side_list_configuration_ok')
+            ck.explain('instance:cubemaps_have_six_sides')
+            ck.explain('instance:save_and_read_loop_nests')
+            ck.explain('instance:save_and_read_walk')
         if k.startswith('frame-getitem'):
             ck.explain('instance:getitem_')
         if k.startswith('frame-setitem'):
